@@ -71,11 +71,29 @@ def run_impl(logls, sched, expectation, nlive, int_schedule):
     from nessai.posterior import compute_weights
 
     st = _NSIntegralState(nlive, expectation=expectation)
-    for l, n in zip(logls, sched):
-        if int_schedule and n == nlive:
-            st.increment(l)
-        else:
-            st.increment(l, nlive=n if not float(n).is_integer() else int(n))
+    # twin: the same increments with reads and an early finalise() interleaved after every
+    # prefix length in `early` - refining the estimate mid-way must not change anything later
+    twin = _NSIntegralState(nlive, expectation=expectation)
+    early = {len(logls) // 2, max(1, len(logls) - 1)}
+    for i_, (l, n) in enumerate(zip(logls, sched)):
+        for s_ in (st, twin):
+            if int_schedule and n == nlive:
+                s_.increment(l)
+            else:
+                s_.increment(l, nlive=n if not float(n).is_integer() else int(n))
+        if (i_ + 1) in early and (i_ + 1) < len(logls):
+            with np.errstate(all="ignore"):
+                _ = np.array(twin.log_posterior_weights, copy=True)
+                _ = twin.effective_n_posterior_samples
+                twin.finalise()
+                _ = np.array(twin.log_posterior_weights, copy=True)
+    with np.errstate(all="ignore"):
+        # (the running rectangle-rule logZ legitimately restarts from the refined value after a
+        # finalise(); volumes, weights and the final trapezoid must not notice)
+        twin_ok = (
+            [float(v) for v in twin.log_vols] == [float(v) for v in st.log_vols]
+            and np.array(twin.log_posterior_weights, dtype=float).tobytes() == np.array(st.log_posterior_weights, dtype=float).tobytes()
+        )
     rect = float(st.logZ)
     vols = [float(v) for v in st.log_vols]
     # reads must be idempotent and must not disturb one another, in any order
@@ -94,6 +112,8 @@ def run_impl(logls, sched, expectation, nlive, int_schedule):
         and (ess1 == ess2 or (ess1 != ess1 and ess2 != ess2))
         and float(st.logZ) == trap
     )
+    with np.errstate(all="ignore"):
+        twin_ok = twin_ok and float(twin.finalise()) == trap and np.array(twin.log_posterior_weights, dtype=float).tobytes() == lw.tobytes()
     _a = np.array(logls)
     _a0 = _a.tobytes()
     if int_schedule:
@@ -104,7 +124,7 @@ def run_impl(logls, sched, expectation, nlive, int_schedule):
         z1, w1 = compute_weights(_a, _n, expectation=expectation)
         reads_ok = reads_ok and _n.tobytes() == _n0
     reads_ok = reads_ok and _a.tobytes() == _a0
-    return dict(rect=rect, vols=vols, trap=trap, lw=lw, z1=float(z1), w1=np.asarray(w1, dtype=float), reads_ok=reads_ok, ess=ess1,
+    return dict(rect=rect, vols=vols, trap=trap, lw=lw, z1=float(z1), w1=np.asarray(w1, dtype=float), reads_ok=reads_ok, twin_ok=twin_ok, ess=ess1,
                 logZ_attr=float(st.logZ), log_evidence=float(st.log_evidence))
 
 
@@ -132,6 +152,8 @@ def check_case(logls, sched, expectation, nlive, int_schedule, errs, label):
         errs.append((f"incremental-rectangle-logZ:{label}", f"{out['rect']!r} vs mpmath {rect!r} ({ctxt})"))
     if not close(out["trap"], trap, tol):
         errs.append((f"incremental-trapezoid-logZ:{label}", f"{out['trap']!r} vs mpmath {trap!r} ({ctxt})"))
+    if not out["twin_ok"]:
+        errs.append((f"an-early-finalise-or-read-changes-what-is-accumulated-afterwards:{label}", ctxt))
     if not out["reads_ok"]:
         errs.append((f"reading-weights-ess-evidence-is-not-idempotent-or-an-input-array-was-modified:{label}", ctxt))
     if out["logZ_attr"] != out["trap"] or out["log_evidence"] != out["trap"]:
